@@ -80,6 +80,8 @@ def dask_boundary(ctx, cases=None):
         plan = [("await", 60), ("buffer", 60), ("concurrent", 80)] if ctx.thorough() else [("await", 2), ("buffer", 3), ("concurrent", 5)]
         cases = list(c20.CORPUS) + [c20.gen_case(ctx.rng, mode) for mode, k in plan for _ in range(k)]
     for c, (loc, dsk) in zip(cases, c20.run_cases(cases)):
+        if dsk.get("not_dask_backed"):
+            continue                # the pipeline could not be built as a Dask-backed one: C20's finding, nothing observed here
         ctx.count("dask-boundary:" + c["mode"])
         n = len(c["xs"])
         ctx.case({"dask": c}, nontrivial=len(loc["out"]) >= 2 and dsk["tasks"] >= 1)
